@@ -150,8 +150,13 @@ func c10Run(rc *simrt.RunCtx, pattern int) {
 				switch rc.Pick(7, "stale.kind") {
 				case 0:
 					staleN := n
-					if rc.Pick(2, "stale.n") == 1 {
+					switch rc.Pick(4, "stale.n") {
+					case 1:
 						staleN = uint8(1 + rc.Pick(254, "stale.nval"))
+					case 2:
+						staleN = 255 // unrepresentable: s = n+1 does not fit
+					case 3:
+						staleN = 0
 					}
 					b = []byte{SYN, staleN}
 				case 1:
@@ -174,6 +179,26 @@ func c10Run(rc *simrt.RunCtx, pattern int) {
 		mk(np.c2s, "c2s")
 		mk(np.s2c, "s2c")
 		staleDrained = 100 * time.Millisecond
+		if rc.Pick(2, "stale.late") == 1 {
+			// ... and one that lands inside the handshake (between the
+			// echoed SYN and the SYNACK)
+			// (only the client's own proposal - a duplicate of its SYN - or a
+			// value no client can propose: a *different valid* window in the
+			// middle of the handshake is forgery, not staleness, and outside
+			// this property)
+			lateN := []uint8{n, 0, 255}[rc.Pick(3, "stale.laten")]
+			at := time.Duration(rc.Pick(30, "stale.lateat")) * time.Millisecond
+			go func() {
+				// injected later, so that it is queued behind the client's
+				// own SYN (the links are FIFO)
+				time.Sleep(at)
+				np.c2s.inject([]byte{SYN, lateN}, 0)
+			}()
+			rc.Fault("stale-c2s-late-SYN")
+			if at+50*time.Millisecond > staleDrained {
+				staleDrained = at + 50*time.Millisecond
+			}
+		}
 	}
 
 	ctx, cancel := context.WithCancel(context.Background())
